@@ -143,7 +143,7 @@ func (in *AttInst) Enabled() []fmt.Stringer {
 	ops = append(ops, OpAtt{"A", "110", 0x33}, OpAtt{"A", "100", 0x33})
 	// malformed: empty, bitfield longer/shorter than the committee
 	ops = append(ops, OpAtt{"A", "000", 0x11}, OpAtt{"A", "1000", 0x11}, OpAtt{"A", "11", 0x22}, OpAtt{"A", "1100", 0x22})
-	for _, e := range []common.Epoch{2, 3, 4} {
+	for _, e := range []common.Epoch{0, 2, 3, 4} { // 0: "previous epoch" saturates at genesis
 		ops = append(ops, OpPrune{e})
 	}
 	return ops
@@ -164,7 +164,10 @@ func (in *AttInst) Apply(op fmt.Stringer, observe bool) (fs []seqx.Finding, outc
 			add("panic/Prune", pm)
 			return fs, "panic"
 		}
-		min := o.Epoch - 1
+		min := o.Epoch // everything older than the previous epoch can no longer be included
+		if min > 0 {
+			min--
+		}
 		if min > in.prunedLT {
 			in.prunedLT = min
 		}
